@@ -284,6 +284,16 @@ func checkC15(cx *Ctx, r *Report) {
 							r.Ok("R-EFFECT", key, w.InstrPos(x), "in-place operation on an object of this request")
 						}
 					}
+					if n == "builtin:append" && len(x.Common().Args) > 1 {
+						// append onto a slice somebody else owns (a value list storage handed to the attribute setter, a
+						// list read from a storage-owned object): with spare capacity the new elements are written into
+						// the owner's backing array, where another session's append overwrites them
+						for l := range vf.objLabels(x.Common().Args[0], 0) {
+							if sh, why := classify(l); sh && !localOnly(fn, x.Common().Args[0]) {
+								r.Fail("R-EFFECT", w.FuncKey(fn)+":append-onto-foreign-slice", w.InstrPos(x), "append onto "+why+" can write into its backing array: concurrent requests share it")
+							}
+						}
+					}
 					if n == "builtin:append" && len(x.Common().Args) > 0 {
 						// append into a re-slice (x[:0], x[:k]) writes into x's backing array
 						for _, rs := range reslicesOf(x.Common().Args[0], map[ssa.Value]bool{}) {
